@@ -72,6 +72,57 @@ theorem all_zipWith_beq (a b : List Int) (h : a.length = b.length) :
       simp only [List.zipWith_cons_cons, List.all_cons, ih ys h, id]
       rw [Bool.eq_iff_iff]; simp
 
+/-! ### boolean-mask selection, paired indexing, masked store (the `valid_inversion` block of the `_inv` rules) -/
+
+theorem maskSelect_map {ι α : Type} (l : List ι) (a : ι → α) (m : ι → Bool) :
+    maskSelect (l.map a) (l.map m) = .ok ((l.filter m).map a) := by
+  unfold maskSelect
+  simp only [List.length_map, if_true]
+  congr 1
+  induction l with
+  | nil => rfl
+  | cons x xs ih =>
+    simp only [List.map_cons, List.zip_cons_cons, List.filterMap_cons, List.filter_cons]
+    cases m x <;> simp [ih]
+
+theorem maskSelect_tab {α : Type} (n : Nat) (a : Nat → α) (m : Nat → Bool) :
+    maskSelect (tab n a) (tab n m) = .ok (((List.range n).filter m).map a) := maskSelect_map _ a m
+
+theorem pairIndex_map {ι : Type} (k : List ι) (rows : ι → List Int) (cols : ι → Int)
+    (h : ∀ i ∈ k, 0 ≤ cols i ∧ cols i < ((rows i).length : Int)) :
+    pairIndex (k.map rows) (k.map cols) = .ok (k.map fun i => (rows i).getD (cols i).toNat 0) := by
+  unfold pairIndex
+  simp only [List.length_map, if_true]
+  induction k with
+  | nil => rfl
+  | cons x xs ih =>
+    have hx := h x (by simp)
+    have ih' := ih (fun i hi => h i (by simp [hi]))
+    have hh : Mir.PyChord.listGet (rows x) (cols x) = .ok ((rows x).getD (cols x).toNat 0) := by
+      simp [Mir.PyChord.listGet, Mir.PyChord.normIndex, hx]
+    simp only [List.map_cons, List.zip_cons_cons, List.mapM_cons, ih', hh, bind, Except.bind, pure, Except.pure]
+
+theorem storeAt_map {ι : Type} (l : List ι) (t m : ι → Bool) (v : ι → Bool) :
+    storeAt (l.map t) (l.map m) ((l.filter m).map v) = l.map fun i => if m i then v i else t i := by
+  induction l with
+  | nil => rfl
+  | cons x xs ih =>
+    simp only [List.map_cons, List.filter_cons]
+    cases hm : m x
+    · simp [storeAt, ih]
+    · simp [storeAt, ih]
+
+theorem maskStoreB_tab (n : Nat) (t m : Nat → Bool) (v : Nat → Int) :
+    maskStoreB (tab n t) (tab n m) (((List.range n).filter m).map v) =
+      .ok (tab n fun i => if m i then v i != 0 else t i) := by
+  unfold maskStoreB
+  have hc : ((tab n m).filter id).length = ((List.range n).filter m).length := by
+    simp only [tab, List.filter_map, List.length_map]
+    rfl
+  simp only [length_tab, if_true, List.length_map, hc, List.map_map]
+  congr 1
+  exact storeAt_map (List.range n) t m (fun i => v i != 0)
+
 /-! ### the hand model of the comparison functions on label lists -/
 
 /-- the loop `for chord_label in labels: validate_chord_label(chord_label)` -/
